@@ -68,6 +68,9 @@ def run(rep, tier):
     prog = program(['conjure_object'])
     rep.bounds['values'] = 'every integer width i8..i128 / u8..u128 at full bit width, bool, ASCII char, f32/f64 (all classes incl. every NaN payload), strings and byte strings of <= ' + str(STR_K) + ' bytes, unit, none/some; JSON number events u64/i64/f64'
     new = find_fn(prog, 'new', inpath='conjure_object::any::<impl')
+    for fail in battery_nested():
+        rep.violation('C13:native-twin:nested', f'an Any nested in a static type does not survive the outer Any: {fail}', {'native': fail})
+    rep.replayed += 1
     into = find_fn(prog, 'deserialize_into', inpath='conjure_object::any::<impl')
     ser_any = [k for k in find_fns(prog, 'serialize', inpath='conjure_object::any::ser::<impl') if ANY.split('::')[-1] in prog.fns[k].args[0][1] and 'AnySerializer' not in prog.fns[k].args[0][1]]
     ser_any = [k for k in ser_any if prog.fns[k].args[0][1].strip().endswith('any::Any')]
@@ -426,6 +429,11 @@ def run_visitor_identity(rep, prog, ser_fn):
              ('u128', z3.BitVec('ju128', 128)), ('i128', z3.BitVec('ji128', 128)), ('i32', z3.BitVec('ji32', 32)), ('u8', z3.BitVec('ju8', 8))]
     for tname, v in cases:
         vis = [k for k in find_fns(prog, 'visit_' + tname, inpath='conjure_object::any::de::<impl') if 'AnyVisitor' in prog.fns[k].args[0][1]]
+        if not vis and tname in ('i32', 'u8'):
+            # not overridden: serde's provided visit_<narrow> widens to visit_i64 / visit_u64, so the kind held by a nested Any changes
+            rep.query(f'AnyVisitor::visit_{tname}:overridden', 'sat', 0.0)
+            rep.structural(f'C13:visit:{tname}', f'AnyVisitor does not override visit_{tname}: a {tname} held by a nested Any is widened when read back through Any', {}, battery_nested)
+            continue
         if len(vis) != 1:
             raise Inconclusive(f'C13 harness: AnyVisitor::visit_{tname} not unique: {vis}')
         st = St()
@@ -511,6 +519,11 @@ def report_prim(rep, tname, m, v, what):
         rep.violation(key, f'{tname} value {op["n"]}: {what}; native {r}', {'op': op, 'native': r})
     else:
         rep.inconc(f'model mismatch C13 {tname}: {op} ({what}) does not reproduce natively: {r}')
+
+
+def battery_nested():
+    r = replay([{'op': 'any_nested'}])[0]
+    return [] if r.get('ok') else list(r.get('bad', ['any_nested failed']))
 
 
 def report_json(rep, tname, doc, what):
